@@ -50,7 +50,7 @@ Section TcpProofs.
 
   Lemma loop_iter_inv data cfg total D :
     dinv data cfg (PLoop total) D ->
-    exists pc' D', loop_iter CopyBuf false false total D = (pc', D', 0) /\ dinv data cfg pc' D' /\ nz pc' = 1.
+    exists pc' D', loop_iter CopyBuf false false false total D = (pc', D', 0) /\ dinv data cfg pc' D' /\ nz pc' = 1.
   Proof.
     intros ((Hwl & Hcfg) & Hd & Hcw & Htot & Herr). unfold loop_iter, d_with.
     destruct (tread_cases CopyBuf (d_rd D) HCB)
@@ -82,7 +82,7 @@ Section TcpProofs.
   Lemma copier_step_inv (d : nat) data cfg pc sh :
     sh_closed_a sh = false -> sh_closed_b sh = false ->
     dinv data cfg pc (if (d =? 0)%nat then sh_d0 sh else sh_d1 sh) ->
-    exists pc' D', copier_step CopyBuf d pc sh =
+    exists pc' D', copier_step CopyBuf false d pc sh =
                      (pc', set_d d sh D' (sh_wg sh - (nz pc - nz pc')) 0) /\ dinv data cfg pc' D' /\ nz pc' <= nz pc.
   Proof.
     intros Hca Hcb Hd. unfold copier_step. rewrite Hca, Hcb.
@@ -148,7 +148,7 @@ Section TcpProofs.
   Qed.
 
 
-  Theorem Inv_step : forall s i, Inv s -> Inv (sys_step tsh (nat * tpc) (tstep CopyBuf) s i).
+  Theorem Inv_step : forall s i, Inv s -> Inv (sys_step tsh (nat * tpc) (tstep CopyBuf false) s i).
   Proof.
     intros [sh ls] i (p0 & p1 & pm & Hls & H0 & H1 & Hwg & Hio & Hm). cbn [fst snd] in *. subst ls.
     unfold sys_step. cbn [snd fst].
@@ -230,9 +230,9 @@ Section TcpProofs.
   Theorem tcp_all_schedules D0 D1 (sched : list nat) :
     no_write_fault D0 -> no_write_fault D1 -> rest (t_rd (d_rd D0)) = sA -> rest (t_rd (d_rd D1)) = sB ->
     d_cfg D0 = cB -> d_cfg D1 = cA ->
-    Inv (run tsh (nat * tpc) (tstep CopyBuf) (tcp_init D0 D1) sched).
+    Inv (run tsh (nat * tpc) (tstep CopyBuf false) (tcp_init D0 D1) sched).
   Proof.
-    intros H0 H1 HA HB HcB HcA. apply (inv_all_schedules tsh (nat * tpc) (tstep CopyBuf) Inv Inv_step).
+    intros H0 H1 HA HB HcB HcA. apply (inv_all_schedules tsh (nat * tpc) (tstep CopyBuf false) Inv Inv_step).
     apply Inv_init; assumption.
   Qed.
 
